@@ -148,8 +148,14 @@ class Check:
         self.tlc_trace_wall = r.wall
         findings = load_known_findings()
         violations, known, drift, foreign = [], {}, 0, 0
+        skipped = 0
         for i, e in enumerate(allev):
             failing = verdicts[i + 1]
+            if failing == ["skipped.range"]:
+                if "_neg" in e:
+                    raise MachineryError("negative control outside the judge's arithmetic range")
+                skipped += 1
+                continue
             if any(c.startswith("machinery.") for c in failing):
                 raise MachineryError("trace spec cannot judge event %r: %s" % ({k: e[k] for k in list(e)[:6]}, failing))
             if "_neg" in e:
@@ -170,6 +176,8 @@ class Check:
                     unexplained.append(c)
             if unexplained:
                 violations.append((e, unexplained))
+        if skipped > max(5, len(allev) // 50):
+            raise MachineryError("%d of %d events outside the 32-bit range of the judge" % (skipped, len(allev)))
         for fid, (f, n) in sorted(known.items()):
             print("KNOWN-FINDING: property=%s %s (%d matching cases this run)" % (self.pid, f["what"], n))
         shutil.rmtree(os.path.join(VERIF, "replays", self.pid), ignore_errors=True) if not self.replay_path else None
@@ -189,7 +197,7 @@ class Check:
                "traces_validated_against_impl": len(self.events),
                "samples": smp, "evaluations": len(self.events), "distinct_nontrivial": len(self.nontrivial),
                "rule": self.rule, "model_runs": self.model_runs, "negative_controls_rejected": len(self.negs),
-               "drift_events": drift, "events_failing_only_other_properties_clauses": foreign,
+               "drift_events": drift, "events_outside_judge_arithmetic_range": skipped, "events_failing_only_other_properties_clauses": foreign,
                "known_finding_cases": {k: v[1] for k, v in known.items()},
                "trace_validation_wall_s": round(self.tlc_trace_wall, 1)}
         if exhaustive is not None:
